@@ -552,3 +552,265 @@ Proof.
   - apply Hst in Hin. destruct (ph g t); simpl; try reflexivity. exfalso. apply Hin. reflexivity.
   - destruct (ph g t) eqn:Ep; simpl; try reflexivity; exfalso; apply Hnin, Hst; rewrite Ep; discriminate.
 Qed.
+
+(** ------------------------------------------------------------------ per-trace prompt topics: C11_closed_out *)
+
+Arguments pubs_events : simpl never.
+Arguments state_events : simpl never.
+
+Lemma on_event_for_other rn s e t : t <> ev_trace e ->
+  on_topic (TPromptInfoFor t) (snd (on_event rn s e)) = [].
+Proof.
+  intros Hne. apply Z.eqb_neq in Hne.
+  destruct e; simpl in *.
+  - rewrite Hne. reflexivity.
+  - unfold tn_end, ti_end, pi_end_trace.
+    destruct (existsb (Z.eqb t0) (r_tn s)); destruct (dget (r_ti s) t0) as [[? ?]|];
+      destruct (existsb (Z.eqb t0) (pi_keys (r_pi s))); simpl; rewrite ?Hne; reflexivity.
+  - reflexivity.
+  - unfold pi_end_call, pn_end_call. destruct (dget (pi_call (r_pi s)) t0) as [[fid info]|]; simpl; auto.
+    destruct (dget (pi_frame (r_pi s)) t0) as [f|]; simpl; auto. destruct (fid =? f); simpl; rewrite ?Hne; auto.
+  - reflexivity.
+  - reflexivity.
+  - unfold pi_start_prompt, pn_start_prompt.
+    destruct (dget (pi_call (r_pi s)) t0) as [[fid info]|]; destruct (dget (r_pn s) t0) as [[? ?]|]; simpl; rewrite ?Hne; auto.
+  - unfold pi_end_prompt. destruct (dget (pi_prompt (r_pi s)) p); simpl; rewrite ?Hne; auto.
+  - reflexivity.
+Qed.
+
+Lemma on_event_for_inner rn s e t : is_trace_boundary e = false ->
+  (exists vs, on_topic (TPromptInfoFor t) (snd (on_event rn s e)) = map Some vs) /\
+  (pi_keys (r_pi (fst (on_event rn s e))) = pi_keys (r_pi s) \/
+   pi_keys (r_pi (fst (on_event rn s e))) = sadd (pi_keys (r_pi s)) (ev_trace e)).
+Proof.
+  intros Hb. destruct e; try discriminate; simpl.
+  - split; [exists []; reflexivity | auto].
+  - unfold pi_end_call, pn_end_call. destruct (dget (pi_call (r_pi s)) t0) as [[fid info]|]; simpl.
+    2:{ split; [exists []; reflexivity | auto]. }
+    destruct (dget (pi_frame (r_pi s)) t0) as [f|]; simpl.
+    2:{ split; [exists []; reflexivity | auto]. }
+    destruct (fid =? f); simpl.
+    + split; auto. destruct (t =? t0); eexists; [instantiate (1 := [_]) | instantiate (1 := [])]; reflexivity.
+    + split; [exists []; reflexivity | auto].
+  - split; [exists []; reflexivity | auto].
+  - split; [exists []; reflexivity | auto].
+  - unfold pi_start_prompt, pn_start_prompt.
+    destruct (dget (pi_call (r_pi s)) t0) as [[fid info]|]; destruct (dget (r_pn s) t0) as [[? ?]|]; simpl;
+      (split; [|auto]).
+    all: try (exists []; reflexivity).
+    all: destruct (t =? t0); eexists; [instantiate (1 := [_]) | instantiate (1 := [])]; reflexivity.
+  - unfold pi_end_prompt. destruct (dget (pi_prompt (r_pi s)) p); simpl; (split; [|auto]).
+    + destruct (t =? t0); eexists; [instantiate (1 := [_]) | instantiate (1 := [])]; reflexivity.
+    + exists []. reflexivity.
+  - split; [exists []; reflexivity | auto].
+Qed.
+
+Lemma on_event_for_start rn s r0 t0 pl t :
+  pi_keys (r_pi (fst (on_event rn s (StartTrace r0 t0 pl)))) = sadd (pi_keys (r_pi s)) t0 /\
+  on_topic (TPromptInfoFor t) (snd (on_event rn s (StartTrace r0 t0 pl))) =
+    if t =? t0 then [Some (VPromptInfo (mkPinfo rn t0 (-1) false None None None false))] else [].
+Proof. simpl. split; auto; destruct (t =? t0); reflexivity. Qed.
+
+Lemma on_event_for_end rn s r0 t0 t :
+  pi_keys (r_pi (fst (on_event rn s (EndTrace r0 t0)))) =
+    (if existsb (Z.eqb t0) (pi_keys (r_pi s)) then sdel (pi_keys (r_pi s)) t0 else pi_keys (r_pi s)) /\
+  on_topic (TPromptInfoFor t) (snd (on_event rn s (EndTrace r0 t0))) =
+    if (t =? t0) && existsb (Z.eqb t0) (pi_keys (r_pi s)) then [None] else [].
+Proof.
+  simpl. unfold tn_end, ti_end, pi_end_trace.
+  destruct (existsb (Z.eqb t0) (r_tn s)); destruct (dget (r_ti s) t0) as [[? ?]|];
+    destruct (existsb (Z.eqb t0) (pi_keys (r_pi s))); simpl; split; auto;
+    destruct (t =? t0); reflexivity.
+Qed.
+
+Definition for_shape (p : phase) (l : list (option value)) : Prop :=
+  match p with
+  | PNone => l = []
+  | PDone => exists vs, l = map Some vs ++ [None]
+  | _ => exists vs, l = map Some vs
+  end.
+
+Definition keys_inv (r : Z) (es : list event) (g : gstate) : Prop :=
+  NoDup (pi_keys (r_pi (state_events r es))) /\
+  forall t,
+    existsb (Z.eqb t) (pi_keys (r_pi (state_events r es))) = live (ph g t) /\
+    for_shape (ph g t) (on_topic (TPromptInfoFor t) (pubs_events r es)).
+
+Lemma for_shape_live_app p p' l vs :
+  live p = true -> live p' = true -> for_shape p l -> for_shape p' (l ++ map Some vs).
+Proof.
+  intros H1 H2 Hs.
+  assert (exists vs0, l = map Some vs0) as [vs0 ->] by (destruct p; simpl in *; try discriminate; assumption).
+  rewrite <- map_app. destruct p'; simpl in *; try discriminate; eauto.
+Qed.
+
+Lemma keys_invariant r es : wf_prefix r es = true -> exists g, grun r [] es = Some g /\ keys_inv r es g.
+Proof.
+  intros Hwf. apply (wfp_ind r (keys_inv r)); auto.
+  - split; [constructor | intros t; split; reflexivity].
+  - clear es Hwf. intros es e g g1 Hwf Hwf' Hg Hs [Hnd IH].
+    destruct (gstep_phase _ _ _ _ Hs) as (Hp & Hr & Ho).
+    unfold keys_inv. rewrite state_events_snoc, pubs_events_snoc.
+    set (s := state_events r es) in *.
+    split.
+    + destruct (is_trace_boundary e) eqn:Eb.
+      * destruct e; try discriminate.
+        -- rewrite (proj1 (on_event_for_start r s r0 t pl 0)). apply sadd_nodup. assumption.
+        -- rewrite (proj1 (on_event_for_end r s r0 t 0)). destruct (existsb (Z.eqb t) (pi_keys (r_pi s))); auto.
+           apply sdel_nodup. assumption.
+      * destruct (on_event_for_inner r s e 0 Eb) as [_ [-> | ->]]; auto. apply sadd_nodup. assumption.
+    + intros t. destruct (IH t) as [Hk Hsh]. rewrite on_topic_app.
+      destruct (Z.eq_dec t (ev_trace e)) as [-> | Hne].
+      * destruct (is_trace_boundary e) eqn:Eb.
+        -- destruct e; try discriminate; cbn [ev_trace] in *.
+           ++ apply pcore_start in Hp. destruct Hp as [Hp0 Hp1].
+              destruct (on_event_for_start r s r0 t pl t) as [-> ->]. rewrite Hp1. rewrite Hp0 in Hsh. unfold for_shape in Hsh.
+              rewrite sadd_existsb, Z.eqb_refl, Hsh. cbn [orb live for_shape app]. split; auto. eexists [_]. reflexivity.
+           ++ apply pcore_end in Hp. destruct Hp as [Hp0 Hp1].
+              destruct (on_event_for_end r s r0 t t) as [-> ->]. rewrite Hp1. rewrite Hp0 in Hsh, Hk. unfold for_shape in Hsh. simpl in Hk.
+              rewrite Hk, Z.eqb_refl. cbn [andb]. rewrite sdel_existsb, Z.eqb_refl. cbn [negb andb live for_shape]. split; auto.
+              destruct Hsh as [vs ->]. eauto.
+        -- destruct (pcore_inner _ _ _ Hp Eb) as [Hl Hl1].
+           destruct (on_event_for_inner r s e (ev_trace e) Eb) as [[vs ->] Hkeys]. rewrite Hl in Hk. rewrite Hl1. split.
+           ++ destruct Hkeys as [-> | ->]; auto. rewrite sadd_present; auto.
+           ++ apply (for_shape_live_app (ph g (ev_trace e))); assumption.
+      * assert (Hph : ph g1 t = ph g t) by (unfold ph; rewrite (Ho t Hne); reflexivity). rewrite Hph.
+        rewrite on_event_for_other by assumption. rewrite app_nil_r. split; auto. rewrite <- Hk.
+        apply Z.eqb_neq in Hne.
+        destruct (is_trace_boundary e) eqn:Eb.
+        -- destruct e; try discriminate; simpl in Hne.
+           ++ rewrite (proj1 (on_event_for_start r s r0 t0 pl 0)), sadd_existsb, Hne. reflexivity.
+           ++ rewrite (proj1 (on_event_for_end r s r0 t0 0)). destruct (existsb (Z.eqb t0) (pi_keys (r_pi s))); auto.
+              rewrite sdel_existsb, Hne. reflexivity.
+        -- destruct (on_event_for_inner r s e 0 Eb) as [_ [-> | ->]]; auto. rewrite sadd_existsb, Hne. reflexivity.
+Qed.
+
+Lemma on_end_run_for rn s t : NoDup (pi_keys (r_pi s)) ->
+  on_topic (TPromptInfoFor t) (snd (on_end_run rn s)) =
+  if existsb (Z.eqb t) (pi_keys (r_pi s)) then [None] else [].
+Proof.
+  intros Hnd. unfold on_end_run, ri_end_run, tn_end_run, ti_end_run, pi_end_run, pn_end_run.
+  assert (H1 : on_topic (TPromptInfoFor t)
+     (map (fun kv : Z * (Z * Z) => Pub TTraceInfo (VTraceInfo (fst (snd kv)) (fst kv) (snd (snd kv)) false)) (rev (r_ti s))) = [])
+    by (induction (rev (r_ti s)); simpl; auto).
+  assert (H2 : on_topic (TPromptInfoFor t) (map (fun t0 : Z => EndT (TPromptInfoFor t0)) (pi_keys (r_pi s))) =
+               if existsb (Z.eqb t) (pi_keys (r_pi s)) then [None] else []).
+  { induction (pi_keys (r_pi s)) as [|k l IHl]; simpl; auto. inv Hnd.
+    destruct (t =? k) eqn:E; simpl.
+    - rewrite IHl by assumption. apply Z.eqb_eq in E. subst.
+      destruct (existsb (Z.eqb k) l) eqn:Ex; auto. apply existsb_eqb_In in Ex. contradiction.
+    - apply IHl. assumption. }
+  destruct (r_ri s); simpl; rewrite !on_topic_app, H1, H2; simpl; rewrite app_nil_r; reflexivity.
+Qed.
+
+(** after on_end_run on any truncated stream, the per-trace prompt topic of every started
+    trace has been ended, exactly once, and nothing was published on it afterwards *)
+Theorem prompt_topic_closed r es : wf_prefix r es = true ->
+  forall t, In t (trace_starts es) ->
+  exists vs, on_topic (TPromptInfoFor t) (pubs_run r es) = map Some vs ++ [None].
+Proof.
+  intros Hwf t Hin. destruct (keys_invariant _ _ Hwf) as (g & Hg & Hnd & Hinv).
+  destruct (started_iff _ _ Hwf) as (g' & Hg' & Hst). rewrite Hg in Hg'. injection Hg' as <-.
+  destruct (Hinv t) as [Hk Hsh]. apply Hst in Hin.
+  unfold pubs_run, pubs_end. rewrite on_topic_app, on_end_run_for by assumption. rewrite Hk.
+  destruct (ph g t) eqn:Ep; unfold for_shape in Hsh; cbn [live]; try (exfalso; apply Hin; reflexivity);
+    destruct Hsh as [vs ->]; exists vs; rewrite ?app_nil_r; reflexivity.
+Qed.
+
+Lemma on_event_notice_some rn s e : exists vs, on_topic TPromptNotice (snd (on_event rn s e)) = map Some vs.
+Proof.
+  destruct e; simpl; try (exists []; reflexivity).
+  - unfold tn_end, ti_end, pi_end_trace.
+    destruct (existsb (Z.eqb t) (r_tn s)); destruct (dget (r_ti s) t) as [[? ?]|];
+      destruct (existsb (Z.eqb t) (pi_keys (r_pi s))); simpl; exists []; reflexivity.
+  - unfold pi_end_call, pn_end_call. destruct (dget (pi_call (r_pi s)) t) as [[fid info]|]; simpl; [|exists []; reflexivity].
+    destruct (dget (pi_frame (r_pi s)) t) as [f|]; simpl; [|exists []; reflexivity]. destruct (fid =? f); simpl; exists []; reflexivity.
+  - unfold pi_start_prompt, pn_start_prompt.
+    destruct (dget (pi_call (r_pi s)) t) as [[fid info]|]; destruct (dget (r_pn s) t) as [[? ?]|]; simpl;
+      try (exists []; reflexivity); eexists [_]; reflexivity.
+  - unfold pi_end_prompt. destruct (dget (pi_prompt (r_pi s)) p); simpl; exists []; reflexivity.
+Qed.
+
+Theorem notice_topic_closed r es :
+  exists vs, on_topic TPromptNotice (pubs_run r es) = map Some vs ++ [None].
+Proof.
+  assert (He : exists vs, on_topic TPromptNotice (pubs_events r es) = map Some vs).
+  { induction es as [|e es IH] using rev_ind.
+    - exists []. reflexivity.
+    - destruct IH as [vs IH]. rewrite pubs_events_snoc, on_topic_app, IH.
+      destruct (on_event_notice_some r (state_events r es) e) as [vs' ->]. rewrite <- map_app. eauto. }
+  destruct He as [vs He]. exists vs. unfold pubs_run, pubs_end. rewrite on_topic_app, He. f_equal.
+  unfold on_end_run, ri_end_run, tn_end_run, ti_end_run, pi_end_run, pn_end_run.
+  assert (H1 : forall m : list (Z * (Z * Z)), on_topic TPromptNotice
+     (map (fun kv : Z * (Z * Z) => Pub TTraceInfo (VTraceInfo (fst (snd kv)) (fst kv) (snd (snd kv)) false)) m) = [])
+    by (induction m; simpl; auto).
+  assert (H2 : forall l, on_topic TPromptNotice (map (fun t0 : Z => EndT (TPromptInfoFor t0)) l) = [])
+    by (induction l; simpl; auto).
+  destruct (r_ri (state_events r es)); simpl; rewrite !on_topic_app, H1, H2; reflexivity.
+Qed.
+
+Theorem active_set_closed r es : last_nos (pubs_run r es) = [].
+Proof.
+  unfold last_nos, pubs_run, pubs_end. rewrite on_topic_app.
+  unfold on_end_run, ri_end_run, tn_end_run, ti_end_run, pi_end_run, pn_end_run.
+  assert (H1 : forall m : list (Z * (Z * Z)), on_topic TTraceNos
+     (map (fun kv : Z * (Z * Z) => Pub TTraceInfo (VTraceInfo (fst (snd kv)) (fst kv) (snd (snd kv)) false)) m) = [])
+    by (induction m; simpl; auto).
+  assert (H2 : forall l, on_topic TTraceNos (map (fun t0 : Z => EndT (TPromptInfoFor t0)) l) = [])
+    by (induction l; simpl; auto).
+  destruct (r_ri (state_events r es)); simpl; rewrite !on_topic_app, H1, H2; simpl; rewrite last_last; reflexivity.
+Qed.
+
+(** ------------------------------------------------------------------ link to the pub/sub model (C08) *)
+
+From NL Require PubSub.Model PubSub.Main.
+
+Module PS := NL.PubSub.Model.
+
+(** what the broker does to the topic's PubSubItem for one publication *)
+Definition to_op (x : option value) : PS.op := match x with Some _ => PS.Publish 0 | None => PS.Close end.
+
+Definition forget (o : PS.op) : PS.op := match o with PS.Publish _ => PS.Publish 0 | o => o end.
+
+Definition is_publisher_op (o : PS.op) : bool :=
+  match o with PS.Publish _ | PS.Close | PS.Clear => true | _ => false end.
+
+Lemma step_closed_mono it o : PS.i_closed it = true -> PS.i_closed (fst (PS.step it o)) = true.
+Proof.
+  intros H. destruct o; simpl; rewrite ?H; simpl; auto.
+  - destruct (nth_error (PS.i_subs it) s); simpl; auto. destruct (PS.next_sub it s0). simpl. assumption.
+  - destruct (nth_error (PS.i_subs it) s); simpl; auto.
+Qed.
+
+Lemma step_close_closes it : PS.i_closed (fst (PS.step it PS.Close)) = true.
+Proof. simpl. destruct (PS.i_closed it) eqn:E; simpl; auto. Qed.
+
+Lemma run_from_closed : forall ops it,
+  PS.i_closed it = true \/ In PS.Close ops -> PS.i_closed (fst (PS.run_from it ops)) = true.
+Proof.
+  induction ops as [|o ops IH]; intros it H; simpl.
+  - destruct H as [H | []]. assumption.
+  - destruct (PS.step it o) as [it' x] eqn:E. specialize (IH it').
+    destruct (PS.run_from it' ops) as [it'' xs]. simpl in *. apply IH.
+    destruct H as [H | [Heq | H]]; auto.
+    + left. pose proof (step_closed_mono it o H) as Hm. rewrite E in Hm. exact Hm.
+    + left. subst o. pose proof (step_close_closes it) as Hm. rewrite E in Hm. exact Hm.
+Qed.
+
+(** any interleaving [ops] of subscriber operations with a publisher sequence that ends the
+    topic leaves the topic closed; C08_termination then makes every subscriber terminate *)
+Theorem ended_topic_terminates (obs : list (option value)) (ops : list PS.op) :
+  (exists vs, obs = map Some vs ++ [None]) ->
+  map forget (filter is_publisher_op ops) = map to_op obs ->
+  forall s, (s < length (PS.i_subs (PS.run false ops)))%nat ->
+  exists n,
+    let tail := skipn (length ops) (PS.outs false (ops ++ repeat (PS.Next s) (S n))) in
+    last tail PS.OBlocked = PS.OStop /\ ~ In PS.OBlocked tail.
+Proof.
+  intros [vs ->] Hops s Hs. apply NL.PubSub.Main.model_termination; auto.
+  unfold PS.run. apply run_from_closed. right.
+  assert (Hin : In PS.Close (map forget (filter is_publisher_op ops))).
+  { rewrite Hops, map_app. apply in_or_app. right. left. reflexivity. }
+  apply in_map_iff in Hin. destruct Hin as (o & Ho & Hin). apply filter_In in Hin.
+  destruct o; simpl in Ho; try discriminate. tauto.
+Qed.
